@@ -561,8 +561,8 @@ def classify(line, out):
                 if c and c[0] in "MFT":
                     lay.add(c[0] + ("+" if c.endswith("+") else ""))
     fk = "".join(sorted(set(x[0] for x in t[4].split(",")) - {"-", "k"})) + ("m" if "f" in t[5] else "")
-    return "cs%s:tmp%s:d%s:%s:%s:%s" % (t[1], "0" if t[2] == "0" else ("s" if int(t[2]) <= 5000 else "l"), t[3],
-                                        fk or "nofault", "".join(sorted(lay)), "+".join(sorted(ev)))
+    return "cs%s:d%s:%s:%s:%s" % ("S" if t[1] in ("1024", "2048") else "L", "0" if t[3] == "0" else "n",
+                                  fk or "nofault", "".join(sorted(lay)), "+".join(sorted(ev)))
 
 
 FIRED = [0]
@@ -585,10 +585,19 @@ def count_fired(line, out):
         pass
 
 
+def canonical(v):
+    """verdict without step index, arguments and byte counts: one report (and
+    one replay file) per kind of failure and operation, not one per input"""
+    import re
+    v = re.sub(r"^step \d+ \((\w+)[^)]*\)", r"after \1", v)
+    return re.sub(r"\d+", "N", v)
+
+
 def checked(line, out):
     try:
         count_fired(line, out)
-        return oracle(line, out)
+        v = oracle(line, out)
+        return canonical(v) if v else None
     except (IndexError, ValueError, KeyError):
         # truncated observation of a killed / crashed implementation: the
         # crash itself is reported by the runner
@@ -605,8 +614,8 @@ def run(ctx):
     fpos, npos = gen_fault_positions(exe, rng, 60 if q else 600)
     streams = [
         ("cq(hand-written + exhaustive small scope)", HAND + gen_exhaustive_small(3)),
-        ("cq(random op sequences, no faults)", gen_random(rng, 25000 if q else 250000, False)),
-        ("cq(random op sequences, fault schedules)", gen_random(rng, 25000 if q else 250000, True)),
+        ("cq(random op sequences, no faults)", gen_random(rng, 15000 if q else 150000, False)),
+        ("cq(random op sequences, fault schedules)", gen_random(rng, 15000 if q else 150000, True)),
         ("cq(every fault position in spill sequences)", fpos),
         ("cq(64 KiB sizes)", gen_random(rng, 400 if q else 4000, False, big=True)
          + gen_random(rng, 400 if q else 4000, True, big=True)),
@@ -637,7 +646,8 @@ def run(ctx):
     ctx.rule = ("one case = a whole op sequence on two queues with a write/mkostemp fault schedule; after every "
                 "op the chunk layout, counters, content CRC, temp-dir listing and descriptor count of the real "
                 "chunk.c are compared with the Lean model and checked by the byte-string reference oracle; "
-                "distinct = (chunk size, temp size class, #dirs, faults, chunk kinds seen, set of op outcomes)")
+                "distinct = (chunk size class, upload dirs configured, fault kinds scheduled, chunk kinds seen, "
+                "set of notable op outcomes: errors and skips)")
     ctx.assumptions += [
         "callers respect chunk.h's obligations: file ranges lie inside the file, mark_written(n) has n <= length, "
         "compact_mem only on MEM-only queues, a self-referencing append_cq_range stays inside the queue "
